@@ -98,6 +98,9 @@ def judge_builder(h, sessions, answers_by_session, names, opw, pre_of, parse_ans
     if not all_lines:
         return diffs, stats
     out, rc, err = vlib.run_model("C14B", all_lines, timeout=3000)
+    if err == "timeout":
+        stats["skipped_wall_clock_timeout"] = 1      # machine load, not a verdict
+        return diffs, stats
     if rc != 0 or len(out) != len(all_lines):
         return [(-1, 0, "driver C14B protocol failure rc=%d lines %d/%d %s" % (rc, len(out), len(all_lines), err[-300:]), "")], stats
     replays = []
@@ -123,6 +126,9 @@ def judge_builder(h, sessions, answers_by_session, names, opw, pre_of, parse_ans
         flat += lines
     if flat:
         impl, rc, err = vlib.run_lines([str(h)], flat, timeout=3000)
+        if err == "timeout":
+            stats["skipped_wall_clock_timeout"] = 1
+            return diffs, stats
         if rc != 0 or len(impl) != len(flat):
             # an abort while assembling directly what the Builder serialized without one: report it as a difference with the replay
             out2, rc2, err2 = vlib.run_lines([str(h)], flat, timeout=3000, env={"VH_FLUSH": "1"})
